@@ -56,6 +56,13 @@ EXTRA_SNIPPETS = [
     # a never-compared snapshot of a defaultdict (supported type; its constructor call has fewer arguments than the adapter describes)
     ("never_defaultdict", "    from collections import defaultdict\n    s = snapshot(defaultdict(list))"),
     ("never_defaultdict_full", "    from collections import defaultdict\n    s = snapshot(defaultdict(list, {'a': [1+1]}))"),
+    # a never-compared snapshot whose argument is a variable / an expression that is no constructor call, holding a dataclass, a namedtuple or a container
+    ("never_variable_dc", "    from dataclasses import dataclass\n    @dataclass\n    class NV:\n        a: int\n    x = NV(1)\n    s = snapshot(x)"),
+    ("never_variable_nt", "    from collections import namedtuple\n    NT = namedtuple('NT', 'a b')\n    rows = [NT(1, 2)]\n    s = snapshot(rows[0])"),
+    ("never_variable_list", "    x = [1, {'k': (2, 3)}]\n    s = snapshot(x)"),
+    # containers holding a star-expression evaluated several times, and used with `in`
+    ("star_loop", "    extra = [1, 2]\n    for _ in (1, 2):\n        assert [1, 2, 3] == snapshot([*extra, 3])"),
+    ("star_in", "    extra = [1, 2]\n    try:\n        assert 5 in snapshot([*extra, 3])\n    except AssertionError:\n        pass"),
 ]
 
 
